@@ -46,6 +46,18 @@ CLAIMED = {
          "spec/JobRules.tla is the constraint catalogue (per suite: field, value class, error code); TLC exports it and every element becomes one implementation test on every variant through the single-job and burst API (plus burst-call misuse: stale suite ids, NULL entry, out-of-order entry); spec/Trace_JobRules.tla requires accepted baseline, INVALID_ARGS with exactly the catalogue's code, untouched buffers, unchanged queue, unaffected follow-up job and full coverage of the catalogue. Suite-level acceptance over the full product is shared with C06's walk.",
          "single violations only; direct-API argument rules not yet in the catalogue",
          "TLA+ catalogue enumeration + one implementation test per model case", "5 C12"),
+ "C15": ("model_checking",
+         "InitMgr(m) is an action of ImbMgr.tla enabled in every state, so TLC's exhaustive exploration re-initialises after every prefix of the small-ring histories; on the real library random histories are cut at a random call, the manager is re-initialised in place (all old/new variant pairs its flags allow), the trace specification requires the pristine empty state, dropped jobs' buffers must never be written again, later jobs must equal their run-alone result, and the continuation must be event-for-event identical (returns, statuses, ring indexes, output digests) to the same continuation on a freshly allocated manager.",
+         "old and new variant share the allocation-time flags; the fresh-manager twin uses the same seeds",
+         "TLA+ model checking + trace validation with a lock-step fresh-manager twin", "5 C15"),
+ "C16": ("fault_enumeration",
+         "Crash points are injected between API calls of random histories; the same process or a forked process (same addresses) re-attaches with imb_set_pointers_mb_mgr(reset=0); the model's Reattach action leaves every persistent variable unchanged, and the trace specification requires that the history continues unperturbed resp. that the re-attached process flushes every in-flight job in order, completed, with the run-alone result, finds the queue empty and the manager usable.",
+         "the exec'ed-process variant (different library load address) is not built yet; fork keeps the load address",
+         "crash-point enumeration validated against the TLA+ Reattach action", "5 C16"),
+ "C17": ("model_checking",
+         "ImbMgr.tla is parameterised by a set of managers; TLC checks the ring invariants and the NonInterference action property (an action on one manager changes nothing of another, only the process-wide mirror) for two managers; on the real library three managers of random variants are interleaved in one thread and the trace is validated with Mgr = {0,1,2}; each manager's event sequence must equal the one it produces alone; 12 threads with own managers must reproduce their solo digests. The imb_get_errno() process-wide fallback is a recorded known finding.",
+         "thread schedules are not controlled; known finding KF-1 listed in known_findings.json",
+         "TLA+ model checking (non-interference) + trace validation of interleavings + thread differential", "5 C17"),
 }
 
 NA = {
